@@ -850,3 +850,62 @@ Section Inv5.
     apply IH; [apply (cfgv_ext v g); assumption|exact I1|apply step5; assumption|assumption].
   Qed.
 End Inv5.
+
+(* ---------------------------------------------------------------- theorem 3 *)
+(* what the property promises of a command string *)
+Definition line_ok (orc : oracles) (g : gw) (l : pstr) : Prop :=
+  canonical l /\
+  exists m, decode l = Some m /\ encode m = l /\ gvalidate orc g m = true /\ 0 <= m_node m <= 255.
+
+Lemma good_line_ok orc v g l : cfgv v g -> good orc v l -> line_ok orc g l.
+Proof.
+  intros C (x & -> & W & V). split; [exists x; split; [exact W|reflexivity]|].
+  exists x. split; [apply decode_encode; exact W|]. split; [reflexivity|].
+  split; [rewrite (gvalidate_vld orc v g x C); exact V|]. apply (vld_node_range orc v x V).
+Qed.
+
+(* controller calls of a history: values the wire format can carry; firmware images as in C01;
+   and - the side condition found here - on a >= 2.0 gateway the node id given to
+   set_child_value must be a node id (0..255) *)
+Definition op_wire (cf : config) (o : op) : Prop :=
+  match o with
+  | SetChild sid _ _ x _ _ => carriable x /\ (cf_ge20 cf = true -> 0 <= sid <= 255)
+  | UpdateFw _ _ _ bin => image_ok bin
+  | _ => True
+  end.
+
+Lemma op_wire_ok5 v cf o : cf_ge20 cf = ge20 v -> op_wire cf o -> op_ok5 v o.
+Proof.
+  intros G. destruct o; simpl; try tauto. intros [A B]. split; [exact A|].
+  intro H. apply B. rewrite G, ge20_eq. exact H.
+Qed.
+
+Theorem reachable_Inv5 orc clock v cf ops :
+  cf_tab cf = tab_of v -> cf_ge20 cf = ge20 v -> Forall (op_wire cf) ops ->
+  let g := run orc clock (gw_init cf) ops in Inv5 orc v g /\ Inv orc g /\ cfgv v g.
+Proof.
+  intros T G F. apply (run5 orc clock v ops (gw_init cf)).
+  - split; assumption.
+  - apply Inv_init.
+  - apply Inv5_init.
+  - eapply Forall_impl; [|exact F]. intro o. apply op_wire_ok5. exact G.
+Qed.
+
+Theorem emitted_canonical_valid_partial orc clock cf ops :
+  cfg_ok cf -> Forall (op_wire cf) ops ->
+  let g := run orc clock (gw_init cf) ops in
+  (forall l, In (ESend l) (g_log g) -> line_ok orc g l) /\
+  (forall l, In (JSend l) (g_jobs g) -> line_ok orc g l) /\
+  (forall k nd l, get_node g k = Some nd -> In l (n_queue nd) ->
+     line_ok orc g l /\ exists m, decode l = Some m /\ m_node m = k).
+Proof.
+  intros [v [T G]] F g.
+  destruct (reachable_Inv5 orc clock v cf ops T G F) as ((A & B & C & _) & _ & CV). fold g in A, B, C, CV.
+  split; [|split].
+  - intros l H. rewrite Forall_forall in C. specialize (C _ H). simpl in C. apply (good_line_ok orc v); assumption.
+  - intros l H. rewrite Forall_forall in B. specialize (B _ H). simpl in B. apply (good_line_ok orc v); assumption.
+  - intros k nd l GN H. pose proof (zassoc_Forall _ _ _ _ A GN) as (_ & _ & _ & Q). simpl in Q.
+    rewrite Forall_forall in Q. specialize (Q _ H).
+    split; [apply (good_line_ok orc v); [exact CV|apply (good_to_good orc v k); exact Q]|].
+    destruct Q as (x & -> & [W _] & K). exists x. split; [apply decode_encode; exact W|exact K].
+Qed.
